@@ -32,3 +32,11 @@ func init() {
 			Why: "F-C07-2"},
 	})
 }
+
+func init() {
+	addMutants("C15", []Mutant{
+		{ID: "c15-pooled-window-not-cleared", File: "internal/wire/pack.go", Expect: "C15-R8",
+			Old: "\tout := state.buf[:min(size+1, len(state.buf))]\n\tclear(out)\n", New: "\tout := state.buf[:min(size+1, len(state.buf))]\n",
+			Why: "F-C15-1: octets the library skips show the previous message"},
+	})
+}
